@@ -208,11 +208,14 @@ def shape_to_tree(shape, naming='plain', level_names=None):
         data[lv] = {}
     counters = [0] * depth
 
+    pre = {'class': 'cs', 'subclass': 'sc', 'supertype': 'st', 'cluster': 'cl'}
+
     def name(li, idx, total_hint=99):
+        px = pre.get(level_names[li], f'L{li}')
         if naming == 'plain':
-            return f'{level_names[li][:2]}{idx:02d}'
+            return f'{px}{idx:02d}'
         # scrambled: reverse-ish order so sorted(names) != structural order
-        return f'{level_names[li][:2]}{(idx * 7 + 3) % 97:02d}'
+        return f'{px}{(idx * 7 + 3) % 97:02d}'
 
     def build(li, node_shape):
         # node_shape = (k, subtree) ; subtree is () for a leaf else a forest
